@@ -108,19 +108,23 @@ class MolecularContainer:
         # make a new configuration to hold the average values
         avr_conformation = ConformationContainer(
             name='average', parameters=parameters, molecular_container=self)
+        # groups (by object identity) that already went into an average
+        used = set()
         for first_name in self.conformation_names:
             container = self.conformations[first_name]
             for group in container.get_groups_for_calculations():
-                if avr_conformation.find_group(group):
-                    # already averaged (found in an earlier conformation)
+                if id(group) in used:
+                    # already averaged (found from an earlier conformation)
                     continue
                 # new group to hold average values
                 avr_group = group.clone()
                 # sum up all groups ...
                 num_found = 0
                 for name in self.conformation_names:
-                    group_to_add = self.conformations[name].find_group(group)
+                    group_to_add = self.conformations[name].find_group(
+                        group, exclude=used)
                     if group_to_add:
+                        used.add(id(group_to_add))
                         avr_group += group_to_add
                         num_found += 1
                     else:
